@@ -110,7 +110,16 @@ static std::vector<bool> related(Rng& g, Runner& r, const std::vector<bool>& a) 
 	}
 }
 
+static int g_op_lo = 0, g_op_hi = 1 << 30;    // op filter (groups "from" / "to")
+static std::string parse_group(int argc, char** argv, const std::string& dflt) {
+	std::string grp = dflt;
+	for (int i = 1; i + 1 < argc; ++i) if (std::string(argv[i]) == "--group") grp = argv[i + 1];
+	if (grp == "from") { g_op_lo = OP_from_f32; g_op_hi = OP_from_f80; return "conv"; }
+	if (grp == "to") { g_op_lo = OP_to_f64; g_op_hi = OP_to_f80; return "conv"; }
+	return grp;
+}
 static void emit_case(Runner& r, int op, const std::vector<std::string>& a) {
+	if (op < g_op_lo || op > g_op_hi) return;
 	std::string res = r.run(op, a);
 	printf("%d %s %d ", r.fam, r.cfg.c_str(), op);
 	if (a.empty()) printf("-");
@@ -187,6 +196,7 @@ static std::string native_conv(int op, const std::vector<std::string>& a) {
 		case 8: if constexpr (I8) { x = (signed char)(int8_t)b; break; } else return "?";
 		case 16: x = (short)(int16_t)b; break;
 		case 32: x = (int)(int32_t)b; break;
+		case 65: x = (long)(int64_t)b; break;
 		default: x = (long long)(int64_t)b; break;
 		}
 		return Tr::out(x); }
@@ -195,6 +205,7 @@ static std::string native_conv(int op, const std::vector<std::string>& a) {
 		switch (w) {
 		case 16: x = (unsigned short)b; break;
 		case 32: x = (unsigned int)b; break;
+		case 65: x = (unsigned long)b; break;
 		default: x = (unsigned long long)b; break;
 		}
 		return Tr::out(x); }
@@ -257,12 +268,12 @@ static void native_sources(double v, double v2, bool first, Rng& g,
 			(1ll << 24) - 1, 1ll << 24, (1ll << 24) + 1, (1ll << 31) - 1, 1ll << 31, -(1ll << 31), (1ll << 32) - 1, 1ll << 32,
 			(1ll << 53) - 1, 1ll << 53, (1ll << 53) + 1, (1ll << 62), INT64_MAX, INT64_MIN, INT64_MIN + 1, 1000, -1000, 1000000007ll};
 		for (int64_t z : ispecials) {
-			emit(OP_from_int, {"40", hex64((uint64_t)z)});
+			emit(OP_from_int, {"40", hex64((uint64_t)z)}); emit(OP_from_int, {"41", hex64((uint64_t)z)});
 			if (z >= INT32_MIN && z <= INT32_MAX) emit(OP_from_int, {"20", hex64((uint32_t)(int32_t)z)});
 			if (z >= 0) emit(OP_from_uint, {"40", hex64((uint64_t)z)});
 		}
 		const uint64_t uspecials[] = {1ull << 63, (1ull << 63) + 1, UINT64_MAX, UINT64_MAX - 1, (1ull << 63) + (1ull << 10), 0xffffffffull, 0x80000000ull};
-		for (uint64_t z : uspecials) { emit(OP_from_uint, {"40", hex64(z)}); if (z <= UINT32_MAX) emit(OP_from_uint, {"20", hex64(z)}); }
+		for (uint64_t z : uspecials) { emit(OP_from_uint, {"40", hex64(z)}); emit(OP_from_uint, {"41", hex64(z)}); if (z <= UINT32_MAX) emit(OP_from_uint, {"20", hex64(z)}); }
 	}
 	// a few random doubles / floats with random exponents near the format's range
 	(void)g;
